@@ -94,3 +94,41 @@ func CLI() (string, error) {
 	cliPath = out
 	return out, nil
 }
+
+var batchCache string
+
+// BatchCacheEnv returns the environment for building the throw-away batch modules: GOCACHE points at a scratch copy
+// (hard links) of a small base cache holding the standard library and the fixed dependencies, so that the tens of
+// thousands of generated packages a check compiles never accumulate in the user's build cache. The base cache lives in
+// /verif/.cache/gobase (not tracked; created by bin/setup or on first use).
+func BatchCacheEnv() []string {
+	env := GoEnv()
+	if batchCache == "" {
+		base := filepath.Join(VerifDir(), ".cache", "gobase")
+		if _, err := os.Stat(filepath.Join(base, "README")); err != nil {
+			if out, err := exec.Command(filepath.Join(VerifDir(), "bin", "mkbasecache")).CombinedOutput(); err != nil {
+				fmt.Fprintf(os.Stderr, "HARNESS: cannot create the base build cache: %v\n%s\n", err, out)
+				return env
+			}
+		}
+		dst := filepath.Join(Root(), "gocache")
+		if out, err := exec.Command("cp", "-al", base, dst).CombinedOutput(); err != nil {
+			fmt.Fprintf(os.Stderr, "HARNESS: cannot link the base build cache: %v\n%s\n", err, out)
+			return env
+		}
+		batchCache = dst
+	}
+	return append(env, "GOCACHE="+batchCache)
+}
+
+// GoBatch runs a go command for a batch module (see BatchCacheEnv).
+func GoBatch(dir string, args ...string) (string, error) {
+	cmd := exec.Command("go", args...)
+	cmd.Dir = dir
+	cmd.Env = BatchCacheEnv()
+	b, err := cmd.CombinedOutput()
+	if err != nil {
+		return string(b), fmt.Errorf("go %s: %w", strings.Join(args, " "), err)
+	}
+	return string(b), nil
+}
